@@ -112,7 +112,7 @@ func sCountShape(c *Ctx, shape string) {
 	if strings.Contains(shape, ":#") {
 		c.Count("s:shape=has-hash-node")
 	}
-	if strings.HasPrefix(shape, "/:#") {
+	if strings.Contains(shape, " /:#") {
 		c.Count("s:shape=root-is-hash-node")
 	}
 	if strings.Contains(shape, "[c") && strings.Contains(shape, "[d") {
